@@ -109,8 +109,8 @@ CompleteOK(ts, h) == \A i \in 1 .. Len(h) : (h[i].ret # "pending" /\ h[i].st.err
 \* C07: after Close / cancellation / an error every later Scan returns false
 LaterScansFalseOK(h) == \A i \in 1 .. Len(h) : (h[i].op = "Scan" /\ h[i].stopped) => h[i].ret \in {"false", "pending"}
 \* C07: Err = the error recorded earlier if there is one; otherwise closed after Close / the context's error after a
-\* cancellation; nil only after a complete scan.  Where the sentence leaves a choice (a complete scan followed by Close,
-\* Close and cancellation both) every reading is accepted.  Before anything happened the property says nothing.
+\* cancellation; nil only after a complete scan - and a recorded clean end (end of input reached) stays nil whatever happens later.
+\* Where the sentence leaves a choice (Close and cancellation both, no clean end) every reading is accepted.  Before anything happened the property says nothing.
 AllowedErr(st) ==
   IF st.err = "err" THEN {"err"}
   ELSE IF st.err = "eof" THEN {"nil"}     \* a recorded clean end wins over a later Close / cancellation (documented: Err is nil at io.EOF)
